@@ -178,6 +178,18 @@ def run(ctx):
                 b = alg.blades[s]
                 ks, vs = list(b.keys()), list(b.values())
                 real['blades'].append(f'{ks[0]} {int(vs[0])}' if len(ks) == 1 else f'weird {ks} {vs}')
+                # direct oracle on the same (history-carrying) algebra object: a blade spelled e_ij..k is the
+                # ordered product e_i e_j .. e_k
+                if len(s) > 2 and alg.d <= 5:
+                    acc = None
+                    for ch in s[1:]:
+                        f = alg.blades['e' + ch]
+                        acc = f if acc is None else acc * f
+                    exp = {k: v for k, v in zip(acc.keys(), acc.values()) if v != 0}
+                    got = {k: v for k, v in zip(ks, vs) if v != 0}
+                    if exp != got:
+                        ctx.violation('spelling-vs-ordered-product', {**desc, 'spelling': s, 'earlier_spellings': sp[:sp.index(s)][-6:]},
+                                      exp, got, key='spelling')
             except Exception as ex:
                 real['blades'].append('raises ' + type(ex).__name__)
         if pqr is not None:
